@@ -13,10 +13,11 @@ CORPUS = os.path.join(vlib.ROOT, "corpus", "seq")
 
 
 def run(ctx, theorems, corr, oracle, quick_plan, thorough_plan, text, rule, corpus_tags=None, extra=None,
-        prop_file=None):
+        prop_file=None, keep=None):
     """plans: list of dicts {suite, features, histories, ops, extra_args, desc}.
     corpus_tags: replay files of /verif/corpus/seq whose name starts with one of these run first.
-    extra: optional callable(ctx) -> (oracle_fail, corr_fail) for additional suites of the property."""
+    extra: optional callable(ctx) -> (oracle_fail, corr_fail) for additional suites of the property.
+    keep: optional predicate (kind, text) on ORACLE mismatches; False drops a case outside the property's hypotheses."""
     pid = ctx.pid
     prop = prop_file or os.path.join(vlib.COQ, "Properties", pid + ".v")
     if isinstance(theorems, dict):      # several theorem files: {file: [theorems]}
@@ -29,6 +30,8 @@ def run(ctx, theorems, corr, oracle, quick_plan, thorough_plan, text, rule, corp
 
     def take(m):
         o, c = seqcommon.select(m, corr=corr, oracle=oracle)
+        if keep is not None:            # property-specific exclusions (cases outside the theorem's hypotheses)
+            o = [x for x in o if keep(x[0], x[1])]
         return o + c
 
     if ctx.replay:
